@@ -410,14 +410,37 @@ func checkC03(c *km.Ctx) {
 				seen := map[ssa.Value]bool{}
 				var flow func(v ssa.Value, d int)
 				flow = func(v ssa.Value, d int) {
-					if seen[v] || d > 8 || reached != "" || v.Referrers() == nil {
+					if seen[v] || d > 12 || reached != "" || v.Referrers() == nil {
 						return
 					}
 					seen[v] = true
 					for _, ref := range *v.Referrers() {
 						switch x := ref.(type) {
-						case *ssa.Phi, *ssa.Convert, *ssa.ChangeType:
+						case *ssa.Phi, *ssa.Convert, *ssa.ChangeType, *ssa.Field, *ssa.Extract:
 							flow(x.(ssa.Value), d+1)
+						case *ssa.Return:
+							// handed back by a helper: the result at its callers
+							ri := -1
+							for i, rv := range x.Results {
+								if rv == v {
+									ri = i
+								}
+							}
+							for _, cs := range c.G.Callers[x.Parent()] {
+								cv, isV := cs.Instr.(ssa.Value)
+								if !isV || ri < 0 {
+									continue
+								}
+								if len(x.Results) == 1 {
+									flow(cv, d+1)
+									continue
+								}
+								for _, r2 := range *cv.Referrers() {
+									if ex, isEx := r2.(*ssa.Extract); isEx && ex.Index == ri {
+										flow(ex, d+1)
+									}
+								}
+							}
 						case *ssa.Store:
 							if x.Val != v {
 								continue
@@ -429,8 +452,63 @@ func checkC03(c *km.Ctx) {
 									if ld, isLd := r2.(*ssa.UnOp); isLd {
 										flow(ld, d+1)
 									}
+									if f2, isF := r2.(*ssa.FieldAddr); isF {
+										for _, r3 := range *f2.Referrers() {
+											if ld, isLd := r3.(*ssa.UnOp); isLd {
+												flow(ld, d+1)
+											}
+										}
+									}
 								}
 							case *ssa.FieldAddr:
+								// a field of a record the caller handed in by pointer: the caller's reads of that field
+								if par, isPar := a.X.(*ssa.Parameter); isPar {
+									g := par.Parent()
+									pi := -1
+									for i, q := range g.Params {
+										if q == par {
+											pi = i
+										}
+									}
+									for _, cs := range c.G.Callers[g] {
+										ci2, isCI := cs.Instr.(ssa.CallInstruction)
+										if !isCI || pi < 0 || pi >= len(ci2.Common().Args) {
+											continue
+										}
+										if al, isAl := km.Unwrap(ci2.Common().Args[pi]).(*ssa.Alloc); isAl {
+											// the caller's own reads, and those of the other functions it hands the record to
+											var readers func(ptr ssa.Value, dd int)
+											readers = func(ptr ssa.Value, dd int) {
+												if dd > 3 || ptr.Referrers() == nil {
+													return
+												}
+												for _, r2 := range *ptr.Referrers() {
+													switch y := r2.(type) {
+													case *ssa.FieldAddr:
+														if y.Field == a.Field {
+															for _, r3 := range *y.Referrers() {
+																if ld, isLd := r3.(*ssa.UnOp); isLd {
+																	flow(ld, d+1)
+																}
+															}
+														}
+													case ssa.CallInstruction:
+														h2 := km.StaticCallee(y.Common())
+														if h2 == nil || !c.InModule(h2) || len(h2.Blocks) == 0 {
+															continue
+														}
+														for ai, av := range y.Common().Args {
+															if av == ptr && ai < len(h2.Params) {
+																readers(h2.Params[ai], dd+1)
+															}
+														}
+													}
+												}
+											}
+											readers(al, 0)
+										}
+									}
+								}
 								if al, isAl := a.X.(*ssa.Alloc); isAl {
 									for _, r2 := range *al.Referrers() {
 										if f2, isF := r2.(*ssa.FieldAddr); isF && f2.Field == a.Field {
